@@ -72,6 +72,21 @@ try:
 finally:
     sh('git -C /repo worktree remove --force %s' % scr)
     shutil.rmtree(scr, ignore_errors=True)
+# merge with earlier runs of other checks against the same stored change (each result carries the /verif commit it was run with)
+try:
+    commit = subprocess.run('git -C %s rev-parse --short HEAD' % ROOT, shell=True, stdout=subprocess.PIPE, text=True).stdout.strip()
+except Exception:
+    commit = '?'
+for c in res:
+    res[c]['verif_commit'] = commit
+prev = {}
+try:
+    prev = json.load(open(os.path.join(d, 'meta.json'))).get('checks', {})
+except Exception:
+    pass
+for c, r in prev.items():
+    if c not in res:
+        res[c] = r
 meta['checks'] = res
 meta['detected_by'] = [c for c, r in res.items() if r['rc'] == 1]
 meta['undecided_by'] = [c for c, r in res.items() if r['rc'] == 2]
